@@ -855,8 +855,10 @@ impl<F: FileSystem + Sync> Server<F> {
             fh, offset, size, ..
         } = ctx.r.read_obj().map_err(Error::DecodeMessage)?;
 
+        // The reply is the header followed by up to `size` bytes of entries: both must fit, otherwise
+        // add_dirent (which accounts against `size`) would run out of space in the middle of an entry.
         let available_bytes = ctx.w.available_bytes();
-        if available_bytes < size as usize {
+        if available_bytes < (size as usize).saturating_add(size_of::<OutHeader>()) {
             return ctx.reply_error_explicit(io::Error::from_raw_os_error(libc::ENOMEM));
         }
 
